@@ -40,7 +40,8 @@ PROBES = ["per-contest shortfalls differ", "contest bound unspecified", "zero ph
 def generate(rng, tier):
     cfg = TIERS[tier]
     return G.gen_case(rng, max_cards=cfg["max_cards"], max_rounds=3, p_shortfall=0.6, rates=[0.0, 0.1, 0.3, 0.6],
-                      audit_types=[(W.COMPARISON, 5), (W.ONEAUDIT, 3), (W.POLLING, 1)])
+                      audit_types=[(W.COMPARISON, 5), (W.ONEAUDIT, 3), (W.POLLING, 1)],
+                      homogeneous_when_style_off=rng.chance(0.5))
 
 
 class Obs:
@@ -188,8 +189,11 @@ class Obs:
                                         f"overstatement {om!r}, expected 1/2 - {a_m}")
 
     def after_setup(self, run):
-        # C08.f pooled phantoms contribute 1/2 to their pool's mean
         out = self.out
+        if run.polling:
+            return
+        self.score_every_phantom(run)
+        # C08.f pooled phantoms contribute 1/2 to their pool's mean
         if run.world["audit_type"] != W.ONEAUDIT:
             return
         style = run.use_style
@@ -205,6 +209,55 @@ class Obs:
                     if not close(mean, ref):
                         out.violate("C08.f", f"pooled/{run.world['contests'][cid]['choice_function']}",
                                     f"mean of pool {pool} for {cid}/{key} is {mean!r}; with its phantoms counted as 1/2 it is {ref!r}")
+
+
+def _score_every_phantom(self, run):
+    """every phantom CVR of the population (sampled or not - with style off the sampler never reaches them) against
+    three manual records: the card cannot be found, a record that lists the contest, a record that does not"""
+    out, ns = self.out, run.ns
+    style = run.use_style
+    phantoms = [c for c in run.cvr_list if c.phantom][:6]
+    if not phantoms:
+        return
+    for cid, con in run.contests.items():
+        cs = run.world["contests"][cid]
+        descs = W.assertion_descriptors(cid, cs)
+        winner_vote = {cs["winner"][0]: 1}
+        loser = next((x for x in cs["candidates"] if x not in cs["winner"]), None)
+        recs = [("unfindable", ns.CVR(id="m", votes={}, phantom=True)),
+                ("winner", ns.CVR(id="m", votes={cid: dict(winner_vote)})),
+                ("loser", ns.CVR(id="m", votes={cid: ({loser: 1} if loser else {})})),
+                ("other-style", ns.CVR(id="m", votes={}))]
+        for c in phantoms:
+            if style and not c.has_contest(cid):
+                continue
+            for key, asn in con.assertions.items():
+                pooled = bool(c.pool and asn.assorter.tally_pool_means is not None)
+                try:
+                    with W.quiet():
+                        b_ph = asn.overstatement_assorter(recs[0][1], c, use_style=style)
+                        for label, m in recs:
+                            om = asn.assorter.overstatement(m, c, use_style=style)
+                            b = asn.overstatement_assorter(m, c, use_style=style)
+                            out.units["pairs_scored"] += 1
+                            if b_ph > b + 1e-12:
+                                out.violate("C08.e", f"{cs['choice_function']}/style={style}/population",
+                                            f"phantom CVR {c.id}, manual record '{label}': replacing it by a phantom raises the "
+                                            f"overstatement assorter of {cid}/{key} from {b!r} to {b_ph!r}")
+                            if not pooled:
+                                if m.phantom or (style and not m.has_contest(cid)):
+                                    a_m = 0.0
+                                else:
+                                    a_m = W.ref_assort(descs[key], m.votes)
+                                if not close(om, 0.5 - a_m):
+                                    out.violate("C08.f", f"unpooled/{cs['choice_function']}/population",
+                                                f"phantom CVR {c.id} (style={style}) against manual record '{label}' of assorter "
+                                                f"value {a_m}: overstatement {om!r}, expected 1/2 - {a_m}")
+                except Exception as e:
+                    out.raised("overstatement(phantom population)", e)
+
+
+Obs.score_every_phantom = _score_every_phantom
 
 
 def execute(case):
